@@ -144,6 +144,18 @@ int main(int argc, char** argv) {
       for (size_t i = chunk; i < min(texts.size(), chunk + 700); i++) d.add(js(texts[i]), dec_out(texts[i], a));
       d.flush();
     }
+    // EVERY byte value at every position of valid groups (full, one and two padding symbols; first and second group)
+    for (int a = 0; a < 2; a++)
+      for (const char* base : {"QUJD", "QUI=", "QQ==", "QUJDQUJD", "QUJDQUI="}) {
+        Batch d("dec", a);
+        for (size_t p = 0; p < strlen(base); p++)
+          for (int c = 0; c < 256; c++) {
+            string t = base;
+            t[p] = (char)c;
+            d.add(js(t), dec_out(t, a));
+          }
+        d.flush();
+      }
     // single-symbol corruptions of valid encodings at every position, alternating alphabets per text
     for (int i = 0; i < (quick ? 60 : 200); i++) {
       string raw;
